@@ -58,6 +58,16 @@ RealLinearDiagonal(t) == t.real /\ t.spread <= TolG /\ t.pw <= TolG /\ t.leak <=
 \* same stack (rep), stacks handed out earlier are not changed by later calls (keep), arguments are left untouched
 CallsAreIndependent(t) == t.rep <= TolG /\ t.keep <= TolG /\ ~t.argmut
 
+\* how the arguments were handed over (event fields): storage form of the stack, spelling of the pixel size, form of the
+\* dose vector; t.xres = cross-checks of the same stack / doses in other forms (single precision array, stack file of
+\* every accepted extension, output file written and read back): relative difference to the float64 result x 1e9
+StackForms == {"xyz_c", "xyz_f", "xyz_view", "zyx_c", "xyz_ro", "xyz_strided", "xyz_c_outzyx", "zyx_c_outxyz"}
+PixelSpellings == {"float", "np64", "np32", "str", "int"}
+DoseForms == {"array", "list", "file", "csv"}
+TolX == 2000          \* 2e-6 relative: single-precision storage (unchanged tree: 6e-8)
+FormsKnown(t) == t.form \in StackForms /\ t.pxas \in PixelSpellings /\ t.dosesas \in DoseForms
+SameForEveryInputForm(t) == \A i \in DOMAIN t.xres : t.xres[i].res <= TolX
+
 \* the zero-frequency component, hence the image mean, is unchanged
 MeanUnchanged(t) ==
     /\ t.mean <= TolG
@@ -114,7 +124,9 @@ CompositionAdds(t) ==
 Failing(t) ==
     IF ~WellFormed(t) THEN "malformed_trace"
     ELSE IF ~RealLinearDiagonal(t) THEN "C16_RealLinearDiagonal"
+    ELSE IF ~FormsKnown(t) THEN "malformed_trace"
     ELSE IF ~CallsAreIndependent(t) THEN "C16_CallsAreIndependent"
+    ELSE IF ~SameForEveryInputForm(t) THEN "C16_SameForEveryInputForm"
     ELSE IF ~MeanUnchanged(t) THEN "C16_MeanUnchanged"
     ELSE IF ~PowerNeverIncreases(t) THEN "C16_PowerNeverIncreases"
     ELSE IF ~ZeroDoseIsIdentity(t) THEN "C16_ZeroDoseIsIdentity"
